@@ -45,7 +45,7 @@ def bounds(tier):
 
 def shapes(tier):
     out = []
-    for N in ((2, 3) if tier == "quick" else (2, 3, 4)):
+    for N in ((2, 3) if tier == "quick" else (2, 3, 4, 5)):
         for nb in (None, 1, 3):
             out.append({"entry": "rejection", "N": N, "src": "filename", "in_memory": False, "n_batches": nb, "pool": 2 if nb is None else 1, "randomize": nb != 1, "full": nb == 3})
             out.append({"entry": "rejection", "N": N, "src": "object", "in_memory": nb == 1, "n_batches": nb, "pool": 1, "randomize": False})
